@@ -296,20 +296,34 @@ func (r *Runner) pureIfaceMethod(iface, method string) bool {
 	return false
 }
 
-// ifaceVersion: a ghost counter per interface type, bumped whenever a method that is not declared
-// read-only is invoked; results of read-only methods are functions of (version, receiver, arguments).
-func (r *Runner) ifaceVersion(st *State, iface string) Term {
+// ifaceVersion: a ghost version per object (array indexed by the interface payload, one array per
+// interface type). A method that is not declared read-only bumps the version of ITS RECEIVER only
+// (assumption: a mutating interface method does not change what read-only methods of other
+// objects return); results of read-only methods are functions of (version, receiver, arguments).
+func ifaceVersionArr(st *State, iface string) Term {
 	k := "ifver:" + iface
 	if t, ok := st.ghost[k]; ok {
 		return t
 	}
-	t := Sym("ifver_"+sanitize(iface)+"@entry", SInt)
+	t := Sym("ifver_"+sanitize(iface)+"@entry", SArr)
 	st.ghost[k] = t
 	return t
 }
 
-func (r *Runner) bumpIfaceVersion(st *State, iface string) {
-	st.ghost["ifver:"+iface] = Fresh("ifver", SInt)
+func (r *Runner) ifaceVersion(st *State, iface string, recv Val) Term {
+	pay := recv.C[0]
+	if len(recv.C) > 1 {
+		pay = recv.C[1]
+	}
+	return Select(ifaceVersionArr(st, iface), pay)
+}
+
+func (r *Runner) bumpIfaceVersion(st *State, iface string, recv Val) {
+	pay := recv.C[0]
+	if len(recv.C) > 1 {
+		pay = recv.C[1]
+	}
+	st.ghost["ifver:"+iface] = st.define("ifver", Store(ifaceVersionArr(st, iface), pay, Fresh("ver", SInt)))
 }
 
 func contentArgs(st *State, vs []Val) []Term {
@@ -338,7 +352,7 @@ func (r *Runner) pureIfaceCall(st *State, f *Frame, iface, method string, recv V
 }
 
 func (r *Runner) pureIfaceResult(st *State, iface, method string, recv Val, args []Val, rt types.Type) Val {
-	as := append([]Term{r.ifaceVersion(st, iface)}, recv.C...)
+	as := append([]Term{r.ifaceVersion(st, iface, recv)}, recv.C...)
 	as = append(as, contentArgs(st, args)...)
 	ls := layout(rt)
 	out := Val{T: rt, C: make([]Term, len(ls))}
